@@ -46,6 +46,7 @@ type vNet struct {
 	down    map[[2]peer.ID]bool // pairs being / having been disconnected by the harness
 	subs    []event.Subscription
 	noWait  bool
+	rsSize  int // network size estimate handed to NewRandomSub (0: ten)
 }
 
 func newVNet(c *vCase) *vNet {
